@@ -352,8 +352,14 @@ def power_gate(repo, res, a: UfuncAnchors):
             or ("not u0.is_dimensionless" in t and "u0.units.is_dimensionless" not in t.replace("not u0.units.is_dimensionless", "") and tr is False)
             for t, tr in facts
         ) and not any(t == "u0.is_dimensionless" and tr is False for t, tr in facts)
-        ok = tested_units and ((derived and (scalar or const_checked)) or base_dimless)
+        # the "dimensionless base: unit stays as it is" shortcut is for array exponents only (no single exponent exists):
+        # a 0-d exponent is always applied to the unit, otherwise (50 %) ** 3 is labelled % instead of %**3
+        nonscalar_known = fm.get("u1.shape == ()") is False or fm.get("inp0.shape == () or inp1.shape == ()") is False
+        shortcut_ok = base_dimless and (derived or nonscalar_known)
+        ok = tested_units and ((derived and (scalar or const_checked)) or shortcut_ok)
         why = []
+        if base_dimless and not derived and not nonscalar_known:
+            why.append("a scalar exponent is not applied to the unit of a dimensionless (possibly scaled: percent, mol) base")
         if not tested_units:
             why.append("exponent units not tested")
         if not derived and not base_dimless:
